@@ -229,7 +229,10 @@ def rule_shaving_loop(ctx: Ctx, prog: Program) -> None:
                 st_atom = _call_result(bp.events, bc)
                 unb = s.facts.decide(cmp_cond("==", st_atom, K(PU)))
                 if bp.outcome == "return":
-                    okk = unb is False and it.scalar(s, bp.value) == st_atom
+                    rv_ = it.scalar(s, bp.value)
+                    # returned as is: the status itself, or a constant the path facts know to be equal to it (e.g. `return PROBLEM_UNBOUND` after the
+                    # test `status != PROBLEM_UNBOUND` was not taken: leaving early because no probe is possible)
+                    okk = (unb is False and rv_ == st_atom) or (isinstance(rv_, Aff) and s.facts.decide(cmp_cond("==", rv_, st_atom)) is True)
                     if okk:
                         ctx.ok("R-SHAVE", "a solved / failed state found by the re-propagation is returned as is")
                     else:
